@@ -246,4 +246,22 @@ func init() {
 				Thorough: grid([]string{"M", "n", "max", "dir"}, []int{8, 8000}, []int{0, 1, 2, 3, 4}, []int{0, 1, 2, 3, 4}, []int{0, 1, 2, 3})},
 		},
 	})
+
+	Properties = append(Properties, &PropertySpec{
+		ID: "C05",
+		Harnesses: []HarnessSpec{
+			{Name: "C05_lexer", Expect: []string{"end"}, TerminationClaim: true, Witnesses: 8,
+				Quick:    grid([]string{"Nb"}, []int{0, 1, 2}),
+				Thorough: grid([]string{"Nb"}, []int{0, 1, 2, 3})},
+			{Name: "C05_soup", Expect: []string{"end"}, TerminationClaim: true, Witnesses: 8,
+				Quick:    grid([]string{"N", "final"}, []int{1, 2}, []int{0, 1}),
+				Thorough: grid([]string{"N", "final"}, []int{1, 2, 3}, []int{0, 1})},
+			{Name: "C05_forcount", Expect: []string{"end"}, TerminationClaim: true, Witnesses: 4,
+				Quick:    grid([]string{"maxCount"}, []int{4}),
+				Thorough: grid([]string{"maxCount"}, []int{8})},
+			{Name: "C05_equ", Expect: []string{"end", "accepted", "rejected"}, TerminationClaim: true, Witnesses: 4,
+				Quick:    grid([]string{"deflen"}, []int{2}),
+				Thorough: grid([]string{"deflen"}, []int{3})},
+		},
+	})
 }
